@@ -165,37 +165,44 @@ func (bc *boundsCtx) term(v ssa.Value) lterm {
 		a := bc.term(x.X)
 		fromU, toU := isUnsigned(x.X.Type()), isUnsigned(x.Type())
 		fb, tb := intBits(x.X.Type()), intBits(x.Type())
-		nonneg := fromU || bc.z.entLE(lconst(0), a)
 		switch {
 		case tb > fb && (fromU || !toU), tb == fb && fromU == toU:
 			// value-preserving
 			if fromU {
 				bc.z.addLE(lconst(0), a)
 			}
-			bc.names[v] = a.v // alias (constant offset lost only if a.c != 0)
-			if a.c != 0 {
-				delete(bc.names, v)
-				return a
-			}
 			return a
-		case nonneg && tb >= fb:
-			// same size sign change of a non-negative value (int -> uint64 etc.); value preserved
-			// when it fits, which holds for lengths and indices (< 2^63)
-			return a
-		case nonneg && tb < fb:
-			// truncation of a non-negative value: 0 <= t <= a
-			me := lterm{bc.name(v), 0}
-			bc.z.addLE(lconst(0), me)
-			bc.z.addLE(me, a)
-			if toU {
-				bc.z.addLE(me, lconst(int64(1)<<uint(tb)-1))
-			}
-			return me
 		}
 		me := lterm{bc.name(v), 0}
 		if toU {
 			bc.z.addLE(lconst(0), me)
+			if tb < 63 {
+				bc.z.addLE(me, lconst(int64(1)<<uint(tb)-1))
+			}
 		}
+		if fromU {
+			bc.z.addLE(lconst(0), a)
+		}
+		// facts that need the path conditions: a non-negative value that fits is preserved,
+		// a non-negative value that may not fit is only bounded from above by the original
+		max := int64(1)<<62 - 1
+		if tb < 63 {
+			if toU {
+				max = int64(1)<<uint(tb) - 1
+			} else {
+				max = int64(1)<<uint(tb-1) - 1
+			}
+		}
+		bc.deferred = append(bc.deferred, func(z *Zone) {
+			if !z.entLE(lconst(0), a) {
+				return
+			}
+			if z.entLE(a, lconst(max)) {
+				z.addEQ(me, a)
+			} else {
+				z.addLE(me, a)
+			}
+		})
 		return me
 	case *ssa.ChangeType:
 		return bc.term(x.X)
@@ -247,11 +254,60 @@ func (bc *boundsCtx) term(v ssa.Value) lterm {
 		}
 		return me
 	}
+	// load of a field of a local object that is stored exactly once before (msg.Len = x; ... msg.Len)
+	if ld, ok := v.(*ssa.UnOp); ok && ld.Op == token.MUL {
+		if fa, ok := ld.X.(*ssa.FieldAddr); ok && isFreshAlloc(fa.X) {
+			f, base := fieldAddr(fa)
+			var st *ssa.Store
+			n := 0
+			eachInstr(bc.fn, func(_ *ssa.BasicBlock, _ int, in ssa.Instruction) {
+				if s, ok := in.(*ssa.Store); ok {
+					if g, b2 := fieldAddr(s.Addr); g == f && b2 == base {
+						st, n = s, n+1
+					}
+				}
+			})
+			if n == 1 && instrDominates(st, ld) {
+				t := bc.term(st.Val)
+				bc.names[v] = t.v
+				if t.c == 0 {
+					return t
+				}
+				delete(bc.names, v)
+				return t
+			}
+		}
+	}
 	me := lterm{bc.name(v), 0}
 	if isUnsigned(v.Type()) {
 		bc.z.addLE(lconst(0), me)
 		if b := intBits(v.Type()); b > 0 && b < 63 {
 			bc.z.addLE(me, lconst(int64(1)<<uint(b)-1))
+		}
+	}
+	// byte counts returned by reads never exceed the buffer they were given
+	if ex, ok := v.(*ssa.Extract); ok && ex.Index == 0 {
+		if call, ok := ex.Tuple.(*ssa.Call); ok {
+			cc := call.Common()
+			name := ""
+			if g := calleeFn(cc); g != nil {
+				name = g.Name()
+			} else if cc.IsInvoke() {
+				name = cc.Method.Name()
+			}
+			switch name {
+			case "ReadMsgUnix", "Read", "ReadFrom", "ReadFromUnix":
+				bufIdx := 0
+				if !cc.IsInvoke() && len(cc.Args) > 1 {
+					bufIdx = 1
+				}
+				if bufIdx < len(cc.Args) {
+					if _, isSl := cc.Args[bufIdx].Type().Underlying().(*types.Slice); isSl {
+						bc.z.addLE(lconst(0), me)
+						bc.z.addLE(me, bc.lenOf(cc.Args[bufIdx]))
+					}
+				}
+			}
 		}
 	}
 	return me
